@@ -100,6 +100,8 @@ type State struct {
 	// closedStmtUse counts driver calls on an already closed statement.
 	ClosedStmtUse int
 	DoubleClose   int
+	// failNext: one-shot faults, by event kind (see FailNext)
+	failNext map[string]error
 }
 
 func NewState() *State {
@@ -125,6 +127,16 @@ func (s *State) Reset() {
 	s.mu.Lock()
 	s.events = nil
 	s.mu.Unlock()
+}
+
+// FailNext makes the next driver call of the given kind fail with err (once).
+func (s *State) FailNext(kind string, err error) {
+	s.mu.Lock()
+	defer s.mu.Unlock()
+	if s.failNext == nil {
+		s.failNext = map[string]error{}
+	}
+	s.failNext[kind] = err
 }
 
 // StmtCount is the number of statements prepared so far (the id of the latest one).
@@ -160,6 +172,11 @@ func (s *State) record(e Event) (Event, *Fault) {
 				e.Err = f.Err.Error()
 			}
 		}
+	}
+	if err, ok := s.failNext[e.Kind]; ok && f == nil {
+		delete(s.failNext, e.Kind)
+		f = &Fault{Kind: e.Kind, Err: err}
+		e.Err = err.Error()
 	}
 	e.Seq = atomic.AddInt64(&globalSeq, 1)
 	s.events = append(s.events, e)
